@@ -456,7 +456,8 @@ def gen_estimator_cases(rng: Rng, tier):
         for est in ("ufpca_cov", "ufpca_inpro", "ufpca_2d", "ufpca_cov_big", "ufpca_inpro_big", "ufpca_pace", "ufpca_pace_irregular",
                     "ufpca_cov_norm", "ufpca_inpro_norm", "mfpca_cov_norm", "mfpca_inpro_norm",
                     "mfpca_cov_points_none", "mfpca_cov_points_mixed", "mfpca_inpro_points_none", "mfpca_inpro_points_mixed",
-                    "mfpca_cov_fewer1", "mfpca_cov_fewer0", "mfpca3_cov_fewer2", "ufpca_cov_points", "mfpca_cov", "mfpca_inpro", "mfpca_pace", "fcptpa", "psplines1", "psplines2", "localpoly"):
+                    "mfpca_cov_fewer1", "mfpca_cov_fewer0", "mfpca3_cov_fewer2", "ufpca_cov_points",
+                    "fcptpa_generic", "mfpca_inpro_generic", "psplines1_generic", "psplines2_generic", "localpoly_generic", "ufpca_cov_generic", "mfpca_cov", "mfpca_inpro", "mfpca_pace", "fcptpa", "psplines1", "psplines2", "localpoly"):
             yield dict(kind="est", est=est, seed=seed)
     # size thresholds for the fits (eigen-solvers and blocked loops may switch algorithm above a size)
     seed = rng.randint(0, 10**6)
@@ -1138,6 +1139,71 @@ def _est_setup(est, seed):
             steps = [("fit", lambda e, c: e.fit(c["data"], method_smoothing=None)), ("transform", lambda e, c: e.transform(method="InnPro")),
                      ("inverse_transform", lambda e, c: e.inverse_transform(c["scores"]))]
         return mk, dict(data=data, config=exps, alt=dict(data=make_subject("multivariate", seed + 7))), steps, "MFPCA"
+    # ---- GENERIC arguments: without the special structure the code may normalise away (non-symmetric penalty
+    #      matrices, unsorted / unnormalised integer weights given as lists, non-contiguous and Fortran-ordered arrays,
+    #      integer dtypes, lists for arrays); all of them are in `ctx`, i.e. snapshotted by value around every step
+    if est == "fcptpa_generic":
+        data = make_subject("dense2d", seed)
+        data = type(data)(data.argvals, type(data.values)(np.asfortranarray(np.asarray(data.values))))
+        m1, m2 = data.n_points
+
+        def one_sided(m):
+            D = np.diff(np.eye(m), 2, axis=0)
+            P = D.T @ D
+            P = P + np.triu(np.ones((m, m)), 1) * 0.125          # not symmetric: a one-sided roughness matrix
+            return np.asfortranarray(P)
+
+        mats = {"v": one_sided(m1), "w": one_sided(m2)[::1, ::1]}
+        ranges = {"v": [1e-2, 1e2], "w": [1e-2, 1e2]}             # lists instead of tuples
+        mk = lambda: FCPTPA(n_components=2)  # noqa: E731
+        steps = [("fit", lambda e, c: e.fit(c["data"], penalty_matrices=c["mats"], alpha_range=c["ranges"], tolerance=1e-3, max_iteration=8)),
+                 ("transform", lambda e, c: e.transform(c["data"])), ("inverse_transform", lambda e, c: e.inverse_transform(c["scores"]))]
+        return mk, dict(data=data, mats=mats, ranges=ranges), steps, "FCPTPA"
+    if est == "mfpca_inpro_generic":
+        data = make_subject("multivariate", seed)
+        weights = [3, 1]                                         # unnormalised, unsorted, integers, a list
+        mk = lambda: MFPCA(n_components=2, method="inner-product", weights=weights)  # noqa: E731
+        steps = [("fit", lambda e, c: e.fit(c["data"], method_smoothing=None)), ("transform", lambda e, c: e.transform(method="InnPro")),
+                 ("inverse_transform", lambda e, c: e.inverse_transform(c["scores"]))]
+        return mk, dict(data=data, config=weights), steps, "MFPCA"
+    if est == "ufpca_cov_generic":
+        data = make_subject("dense1d", seed)
+        big = np.asfortranarray(np.round(np.asarray(data.values) * 8))
+        wide = np.zeros((big.shape[0], 2 * big.shape[1]))
+        wide[:, ::2] = big
+        vals = wide[:, ::2]                                       # a non-contiguous (strided) view with integer values
+        data = type(data)(data.argvals, type(data.values)(vals))
+        mk = lambda: UFPCA(n_components=2, method="covariance")  # noqa: E731
+        steps = [("fit", lambda e, c: e.fit(c["data"])), ("transform", lambda e, c: e.transform(c["data"], method="NumInt")),
+                 ("inverse_transform", lambda e, c: e.inverse_transform(c["scores"]))]
+        return mk, dict(data=data), steps, "UFPCA"
+    if est in ("psplines1_generic", "psplines2_generic"):
+        if est == "psplines1_generic":
+            x = np.array([float(v) for v in rng.grid(9)] * 2)[:9]     # (a list is refused by the tree: TypeError)
+            y = np.arange(18)[::2] % 5                             # integer dtype, strided
+            w = np.array([2, 1, 1, 3, 1, 1, 0, 1, 2])              # unnormalised integer weights
+            mk = lambda: PSplines(n_segments=4, degree=3)  # noqa: E731
+            pen, xn = 2, np.array([0.5, 0.25])                      # an integer penalty, unsorted query points
+        else:
+            x = [np.linspace(0, 1, 5), list(np.linspace(0, 1, 6))]
+            y = np.asfortranarray(_dy(rng, (5, 6)))
+            w = np.asfortranarray(np.arange(30).reshape(5, 6) % 3 + 1)
+            ns, dg = [2, 3], [2, 2]                                # lists for the arrays of segments / degrees
+            mk = lambda: PSplines(n_segments=ns, degree=dg)  # noqa: E731
+            pen, xn = [1.0, 2.0], [np.linspace(0, 1, 3), np.linspace(0, 1, 4)]
+        steps = [("fit", lambda e, c: e.fit(y=c["y"], x=c["x"], sample_weights=c["w"], penalty=c["pen"])), ("predict", lambda e, c: e.predict()),
+                 ("predict", lambda e, c: e.predict(c["xn"]))]
+        ctx = dict(x=x, y=y, w=w, pen=pen, xn=xn)
+        if est == "psplines2_generic":
+            ctx["config"] = [ns, dg]
+        return mk, ctx, steps, "PSplines"
+    if est == "localpoly_generic":
+        x = np.array([float(v) for v in rng.grid(12)])[::-1].copy()    # not sorted
+        y = (np.arange(24)[::2] % 7)                                   # integer dtype, strided
+        xn = np.array([0.1, 0.9, 0.5])                                 # not sorted (a list is refused by the tree)
+        mk = lambda: LocalPolynomial(kernel_name="epanechnikov", bandwidth=0.4, degree=1)  # noqa: E731
+        steps = [("predict", lambda e, c: e.predict(y=c["y"], x=c["x"])), ("predict", lambda e, c: e.predict(y=c["y"], x=c["x"], x_new=c["xn"]))]
+        return mk, dict(x=x, y=y, xn=xn), steps, "LocalPolynomial"
     if est == "fcptpa":
         data = make_subject("dense2d", seed)
         m1, m2 = data.n_points
